@@ -183,6 +183,24 @@ def rules(ctx):
                       "otherwise the functor modifies the instance readers are using" % (v, seq, R, want_first, want_first, R[v]), fn.where(), fn=fn)
         ctx.check(all(fn.atomic(s)["orders"] == ["seq_cst"] for s in stores), rid, L + "update#indicator-store-seq_cst", "indicator stores are seq_cst", "indicator store must be seq_cst", fn.where(), fn=fn)
         ctx.exhaustive[rid] = True
+    # the value computed by the read functor is copied out while the reader is still registered
+    for fn in flow._shapes(ctx, L + "read"):
+        ret = (fn.rec.get("ret") or "").strip()
+        ctx.check(not ret.endswith("&") and not ret.endswith("&&"), rid, L + "read#returns-by-value", "read() returns by value (%s)" % (ret or "void"),
+                  "read() returns %s: a functor that returns a reference into the protected instance lets that reference escape the read guard - the caller then reads "
+                  "(copies) the live instance unprotected while a complete update() can run in the middle of it (mixed state)" % ret, fn.where(), fn=fn)
+    # both replicas start from the state handed to the constructor
+    for fn in flow._shapes(ctx, L + "left_right"):
+        inits = [e for b, i, e, n in fn.events() if n["k"] == "init" and n.get("leaf") in ("_left", "_right")]
+        if len(inits) != 2 or not fn.params:
+            continue
+        srcs = {fn.nodes[e]["leaf"]: flow.srcs(fn, e) for e in inits}
+        if len(fn.params) == 2:
+            ok = any(t.startswith("param#0") for t in srcs["_left"]) and any(t.startswith("param#1") for t in srcs["_right"]) and not any(
+                t.startswith("param#0") for t in srcs["_right"]) and not any(t.startswith("param#1") for t in srcs["_left"])
+            ctx.check(ok, rid, L + "left_right(left,right)#each-replica-from-its-argument", "_left is initialised from the first, _right from the second argument",
+                      "the two-argument constructor does not initialise _left from its first and _right from its second argument (%s): a replica built from a moved-from "
+                      "or foreign value serves readers after every other update" % {k: sorted(v) for k, v in srcs.items()}, fn.where(), fn=fn)
     rid2 = "LR.toggle"
     ctx.rule(rid2, "toggle_version_and_wait: wait(next) < version store(next) < wait(current) with next = (current+1)&1; the read guard arrives on the indicator "
                    "selected by the version index and departs in its destructor")
